@@ -372,8 +372,8 @@ def run(ctx):
         kinds[f.kind] += 1
         ctx.count("families")
         ctx.count("key_objects", len(f.objs))
-    n_sigs = ctx.pick(10, 60)
-    n_mut = ctx.pick(32, 90)
+    n_sigs = ctx.pick(10, 30)
+    n_mut = ctx.pick(32, 60)
     deadline = ctx.deadline(100, 1000)
     import time
     for f in fams:
